@@ -1,4 +1,5 @@
 import Driver.StackDrv
+import Driver.ExecDrv
 open Pushr
 
 def handleLine (line : String) : String :=
@@ -6,6 +7,8 @@ def handleLine (line : String) : String :=
   | some [.list (.atom kind :: rest)] =>
     match kind with
     | "stackop" => StackDrv.handle rest
+    | "exec" => ExecDrv.handleExec rest
+    | "step" => ExecDrv.handleStep rest
     | "names" => String.intercalate " " (Instr.all.map Instr.str)
     | _ => "bad kind " ++ kind
   | _ => "bad parse"
